@@ -5,6 +5,7 @@ package cbor
 
 import (
 	"bytes"
+	"io"
 	"testing"
 	"unicode/utf8"
 
@@ -96,8 +97,13 @@ func buildStream(c *core.Ctx, maxItems int) ([]byte, []sent) {
 			for j := range b {
 				b[j] = 0x20 + b[j]%0x5f // printable ASCII
 			}
-			if l >= 2 && c.Chance("text.multibyte", 1, 3) {
-				copy(b[l-2:], "é")
+			if l >= 4 && c.Chance("text.multibyte", 1, 2) {
+				// two-, three- and four-byte sequences at their range limits, and U+FFFD itself
+				mb := c.PickStr("text.mb", "é", "\u07ff", "\u0800", "\ufffd", "\uffff", "\ud7ff", "\ue000", "\U00010000", "\U0010ffff", "\u00a0")
+				copy(b[c.Int("text.mbAt", 0, l-len(mb)):], mb)
+				if mb == "\ufffd" {
+					c.Probe("valid text containing U+FFFD sent")
+				}
 			}
 			if l >= 1 && c.Chance("text.invalid", 1, 8) {
 				b[c.Int("text.badAt", 0, l-1)] = byte(c.PickInt("text.bad", 0xff, 0xc0, 0x80, 0xfe, 0xed))
@@ -280,9 +286,33 @@ func effective(stream []byte, plan core.ReaderPlan) []byte {
 }
 
 // consume drives the decoder over the stream with drawn calls.
-func consume(c *core.Ctx, stream []byte, plan core.ReaderPlan, maxCalls int) {
+// source is what the decoder reads from: the simulated channel, or one of the
+// in-memory reader types the repository itself decodes from (sections of a
+// bundle are bytes.Buffers, header blocks bytes.Readers).
+type source struct {
+	r        io.Reader
+	consumed func() int
+}
+
+func drawSource(c *core.Ctx, stream []byte, plan core.ReaderPlan) (source, core.ReaderPlan) {
+	switch c.Pick("source.kind", 5) {
+	case 0:
+		b := bytes.NewBuffer(append([]byte(nil), stream...))
+		c.Sig("src:bytes.Buffer")
+		return source{b, func() int { return len(stream) - b.Len() }}, core.ReaderPlan{ErrAt: -1}
+	case 1:
+		b := bytes.NewReader(stream)
+		c.Sig("src:bytes.Reader")
+		return source{b, func() int { return len(stream) - b.Len() }}, core.ReaderPlan{ErrAt: -1}
+	}
 	sr := c.NewReader("chan", stream, plan)
-	d := verifhook.NewCborDecoder(sr)
+	return source{sr, sr.Consumed}, plan
+}
+
+func consume(c *core.Ctx, stream []byte, plan core.ReaderPlan, maxCalls int) {
+	src, plan := drawSource(c, stream, plan)
+	sr := srcCounter{src}
+	d := verifhook.NewCborDecoder(src.r)
 	eff := effective(stream, plan)
 	clean := plan.ErrAt < 0
 	for i := 0; i < maxCalls; i++ {
@@ -304,7 +334,7 @@ func consume(c *core.Ctx, stream []byte, plan core.ReaderPlan, maxCalls int) {
 		if c.Oracle("C12") {
 			// transient error: the bytes stay deliverable, the reference sees the whole stream
 			judge(c, eff, pos, k, r, sr.Consumed(), clean)
-			if r.err == nil && sr.ErrSeen != nil && plan.ErrKind != 1 && sr.Consumed() > plan.ErrAt {
+			if r.err == nil && plan.ErrAt >= 0 && plan.ErrKind != 1 && sr.Consumed() > plan.ErrAt {
 				c.Violation("read-error-swallowed", callNames[k], "consumed past the injected error")
 			}
 		}
@@ -318,6 +348,10 @@ func consume(c *core.Ctx, stream []byte, plan core.ReaderPlan, maxCalls int) {
 	}
 	c.Outcome("nt:all-decoded")
 }
+
+type srcCounter struct{ s source }
+
+func (s srcCounter) Consumed() int { return s.s.consumed() }
 
 func TestClean(t *testing.T) {
 	rapid.Check(t, func(t *rapid.T) {
